@@ -416,3 +416,36 @@ _units_local = units
 
 def units(tier):   # noqa: F811
     return _units_local(tier) + uf_units()
+
+
+def whole_units(tier):
+    """fill_and_pair as a whole on concrete shapes: loop structure + every array access + ownership of every vertex"""
+    U = []
+    shapes = [(2, 2), (2, 3), (3, 2), (3, 3)] + ([(2, 4), (4, 2), (3, 4), (4, 3), (4, 4)] if tier == "thorough" else [])
+    for r, c in shapes:
+        con = """
+__CPROVER_requires(size_x == GC - 1 && size_y == GR - 1 && dy == GC && input_size == NSQ && g_nedges == 0 && vals_ok() && counters_zero())
+__CPROVER_ensures(P_whole())
+__CPROVER_assigns(ds_parent_v_, ds_parent_s_, data_v_, g_vwr, g_swr, g_edges, g_nedges, g_vowner, g_cur)
+"""
+        G = ("static bool vals_ok(void) { bool ok = true; for (Index k = 0; k < NSQ; k++) ok = ok && g_in[k] >= 0 && g_in[k] < NSQ; return ok; }\n"
+             "static bool counters_zero(void) { bool ok = true; for (Index k = 0; k < NSQ; k++) ok = ok && g_vwr[k] == 0 && g_swr[k] == 0; return ok; }\n"
+             "int nondet_int(void);\n")
+        fn = Fn(R, r"void fill_and_pair\(\)", "fill_and_pair", con, subs=SUBS[:2] + [(r"(?<![\w.])i = ([^;]+);", r"i = \1; g_cur = i;")],
+                canary=(r"x < size_x; \+\+x\) \{\s*i = x;", "x <= size_x; ++x) { i = x;"))
+        U.append(Unit(f"rect.fill_and_pair.whole.{r}x{c}", "C14", [fn_hl(""), fn_spv(), fn_sps(), fn], enforce="fill_and_pair", includes=["c14c_glue.h"],
+                      defines=[f"GR={r}", f"GC={c}"], globals_=G, unwind=2 * r * c + 3, route="B", object_bits=10,
+                      bound=f"grid {r}x{c}; every weak order of the cell values (values in 0..{r * c - 1}, lemma L5)", inputs=["g_in"],
+                      replay=replay_by_native_search,
+                      harness=H("  for (int k = 0; k < NSQ; k++) { g_in[k] = nondet_int(); g_vwr[k] = 0; g_swr[k] = 0; }\n"
+                                "  size_x = GC - 1; size_y = GR - 1; dy = GC; input_size = NSQ; g_nedges = 0;", "fill_and_pair();"),
+                      runs=[Run(backend="kissat", timeout=900)],
+                      desc=f"fill_and_pair as a whole on a {r}x{c} grid (all loops unrolled, real has_larger_input): every array access in range, every vertex of the reduced complex written exactly once and by the smallest of its four squares, interior squares once, boundary squares never"))
+    return U
+
+
+_units_uf = units
+
+
+def units(tier):   # noqa: F811
+    return _units_uf(tier) + whole_units(tier)
